@@ -43,7 +43,7 @@ Fixpoint split_t (t : tree) (s : bytes) : (tree * option (option ploc * item) * 
   | T nl l il it nn nb r =>
     let t0 := tn t ++ ti t in
     match cmp s (ikey it) with
-    | Eq => ((l, Some (il, it), r), t0)
+    | Eq => ((l, Some (il, it), r), t0 ++ tn l ++ tn r)   (* both children are loaded in place before they are copied *)
     | Lt =>
       match l with
       | E => ((E, None, t), t0)
